@@ -143,6 +143,9 @@ type PPA struct {
 	// go, channel operation or deferred call intervenes.
 	foldDepth   int
 	resDepth    int
+	// IntHook lets a rule give an integer value to a (resolved) value, e.g. len(x) = 2 in this scenario;
+	// it takes part in the constant folding of counters and comparisons.
+	IntHook     func(e *PPA, st *State, rv RV) (int64, bool)
 	preArgs     []RV // operands captured at defer time for the deferred call being entered
 	HeapForward bool
 	NoAuto      bool
@@ -494,7 +497,7 @@ func (e *PPA) Resolve(st *State, rv RV) RV {
 			rv = val
 		case *ssa.BinOp:
 			// integer arithmetic on constants (loop counters resolved through φ by the path)
-			if v.Op != token.ADD && v.Op != token.SUB {
+			if v.Op != token.ADD && v.Op != token.SUB && v.Op != token.QUO && v.Op != token.MUL {
 				return rv
 			}
 			// a counter whose start is not a constant resolves, through its φ, to this very operation: bounded
@@ -505,17 +508,24 @@ func (e *PPA) Resolve(st *State, rv RV) RV {
 			x := e.Resolve(st, RV{rv.F, v.X})
 			y := e.Resolve(st, RV{rv.F, v.Y})
 			e.foldDepth--
-			cx, okx := constInt(x.V)
-			cy, oky := constInt(y.V)
+			cx, okx := e.intVal(st, x, 0)
+			cy, oky := e.intVal(st, y, 0)
 			if !okx || !oky {
 				return rv
 			}
-			if _, isConst := x.V.(*ssa.Const); !isConst {
-				return rv
-			}
-			res := cx + cy
-			if v.Op == token.SUB {
+			var res int64
+			switch v.Op {
+			case token.ADD:
+				res = cx + cy
+			case token.SUB:
 				res = cx - cy
+			case token.MUL:
+				res = cx * cy
+			case token.QUO:
+				if cy == 0 {
+					return rv
+				}
+				res = cx / cy
 			}
 			return RV{rv.F, ssa.NewConst(constant.MakeInt64(res), v.Type())}
 		case *ssa.ChangeType:
@@ -1174,6 +1184,12 @@ func (e *PPA) intVal(st *State, rv RV, d int) (int64, bool) {
 	if c, ok := constInt(rv.V); ok {
 		if _, isConst := rv.V.(*ssa.Const); isConst {
 			return c, true
+		}
+	}
+	// a value the rule's scenario fixes (e.g. the length of a queue)
+	if e.IntHook != nil {
+		if k, ok := e.IntHook(e, st, rv); ok {
+			return k, true
 		}
 	}
 	call, ok := rv.V.(*ssa.Call)
